@@ -531,6 +531,8 @@ impl<'a> LineBreaker<'a> {
         ]);
         // TeX.2021.864
         let mut diffs: Diffs = Default::default();
+        // Index of the first element after the elements replaced by the most recent discretionary.
+        let mut end_of_replaced = 0_usize;
         // This is the loop in TeX.2021.863
         for i in 0..=list.len() {
             let elem = list.get(i);
@@ -568,6 +570,7 @@ impl<'a> LineBreaker<'a> {
                     }
                     Discretionary(discretionary) => {
                         // TeX.2021.869
+                        end_of_replaced = i + 1 + discretionary.replace_count as usize;
                         disc_width = discretionary
                             .pre_break
                             .iter()
@@ -603,7 +606,12 @@ impl<'a> LineBreaker<'a> {
                     }
                     Glue(glue) => {
                         // TeX.2021.868
-                        if auto_breaking && i > 0 && list[i - 1].precedes_break() {
+                        // After a discretionary and the elements it replaces, the preceding
+                        // node is the discretionary itself (TeX.2021.869).
+                        if auto_breaking
+                            && i > 0
+                            && (i == end_of_replaced || list[i - 1].precedes_break())
+                        {
                             // List of allowable line breaks in TeXBook chapter 14 p96:
                             // (a) at glue, provided that this glue is immediately preceded by
                             // a non-discardable item, and that it is not part of a math formula
@@ -616,8 +624,11 @@ impl<'a> LineBreaker<'a> {
                         }
                     }
                     Kern(kern) => {
+                        // The elements replaced by a discretionary are never breakpoints:
+                        // TeX.2021.869 steps over them.
                         if kern.kind == KernKind::Explicit
                             && auto_breaking
+                            && i >= end_of_replaced
                             && matches!(list.get(i + 1), Some(Glue(_)))
                         {
                             // List of allowable line breaks in TeXBook chapter 14 p96:
